@@ -306,6 +306,17 @@ fn monotone_violation(vals: &[i32], out: &[f64]) -> Option<(i32, f64, i32, f64)>
     None
 }
 
+/// Label for a monotonicity break that is a rounding overshoot of the ramp at a window edge: the
+/// ramp value next to the edge lies outside [0, ymax] by a rounding error while the neighbour on
+/// the flat side is exactly 0 or ymax.
+fn edge_overshoot(func: Func, oa: f64, ob: f64, ymax: f64) -> bool {
+    if !matches!(func, Func::Linear | Func::Exact) {
+        return false;
+    }
+    let eps = 1e-6 * ymax.max(1.0);
+    (ob == ymax && oa > ymax && oa - ymax < eps) || (oa == 0.0 && ob < 0.0 && -ob < eps)
+}
+
 #[derive(Clone, Copy, Debug, PartialEq)]
 enum Mode {
     /// to_vec(): object's rescale attributes, no window
@@ -488,8 +499,11 @@ fn check_pipeline(l: &mut Local, img: &GImg, x: &Xform, obj_x: &Xform, mode: Mod
                             r["monotonicity"] = json!({"value_a": va, "output_a": oa, "value_b": vb, "output_b": ob});
                             // label: monotone when ordered by the value of all allocated bits?
                             let as_alloc = bs < a && monotone_violation(&vals_alloc, &out).is_none();
+                            let ym = v.accepted.map(|x| x.0).unwrap_or(0.0);
                             let key = if as_alloc {
                                 format!("C22|pipeline|alloc{}|{}|bits-stored-ignored", a, sign(img.signed))
+                            } else if edge_overshoot(eff.func, oa, ob, ym) {
+                                "C22|window-ramp|rounding-overshoot-at-edge".to_string()
                             } else {
                                 format!("C22|pipeline|alloc{}|{}|{}|{}|non-monotonic", a, sign(img.signed), eff.func.name(), tclass)
                             };
@@ -630,8 +644,14 @@ fn check_lut_api(l: &mut Local, rng: &mut Rng, bs: u16, signed: bool, x: &Xform,
                             l.eval();
                             if let Some((va, oa, vb, ob)) = monotone_violation(&vals, &out) {
                                 r["monotonicity"] = json!({"value_a": va, "output_a": oa, "value_b": vb, "output_b": ob});
+                                let ym = v.accepted.map(|x| x.0).unwrap_or(0.0);
+                                let key = if edge_overshoot(eff.func, oa, ob, ym) {
+                                    "C22|window-ramp|rounding-overshoot-at-edge".to_string()
+                                } else {
+                                    format!("C22|lut-api|{}|{}|{}|{}|non-monotonic", cname, sign(signed), eff.func.name(), tclass)
+                                };
                                 l.violation(
-                                    format!("C22|lut-api|{}|{}|{}|{}|non-monotonic", cname, sign(signed), eff.func.name(), tclass),
+                                    key,
                                     format!("output decreases: value {} → {}, value {} → {}", va, oa, vb, ob),
                                     r,
                                 );
@@ -771,8 +791,22 @@ pub fn run(cfg: &Cfg) -> Outcome {
         let img2 = GImg { bits_stored: 4, signed: false, samples: vec![0x01, 0xF1, 0x0F, 0xA5], ..img.clone() };
         let replay = json!({"seed": cfg.seed, "stream": 220, "case": 1, "hand_made": true, "image": img2.describe(), "object_attributes": id.json()});
         check_pipeline(&mut base, &img2, &id, &id, Mode::DefaultPipeline, &replay);
+        // floating-point overshoot of the LINEAR ramp at its upper edge (found by the random
+        // workload at seed 7): value 26710 → 65535.0000000001 > ymax, value 26711 → 65535
+        let img3 = GImg {
+            rows: 1,
+            cols: 3,
+            bits_allocated: 16,
+            bits_stored: 15,
+            signed: false,
+            samples: vec![26709, 26710, 26711],
+            ..img.clone()
+        };
+        let x3 = Xform { slope: 0.001, intercept: 0.5, func: Func::Linear, center: 27.13, width: 2.16 };
+        let replay = json!({"seed": cfg.seed, "stream": 220, "case": 2, "hand_made": true, "image": img3.describe(), "option_parameters": x3.json()});
+        check_pipeline(&mut base, &img3, &x3, &id, Mode::CustomWithFunction, &replay);
     }
-    let per_cfg = cfg.n(24, 480);
+    let per_cfg = cfg.n(20, 480);
     let local = run_parallel(
         cfg,
         22,
